@@ -1,6 +1,6 @@
 //! C11 — Schmidt number
 use crate::common::*;
-use crate::fam::hom::{cxs, gen_setup, integrator_zoo};
+use crate::fam::hom::{cxs, gen_setup, gen_setup_x, integrator_zoo};
 use spdcalc::math::schmidt_number;
 use spdcalc::prelude::*;
 
@@ -73,19 +73,19 @@ pub fn run(ctx: &mut Ctx) {
 
   // ---- structured arrays
   for n in 1..=6usize {
-    for kind in 0..6 {
+    for kind in 0..10 {
       case(ctx, n, kind);
     }
   }
   for _ in 0..ctx.n {
     let n = ctx.rng.between(1, maxn);
-    let kind = ctx.rng.below(6);
+    let kind = ctx.rng.below(10);
     case(ctx, n, kind);
   }
 
   // ---- setup-level wrapper: square ranges, rectangular ranges with a square number of points
   // (4×9, 2×8, 3×12, 1×4, 9×4 …) and with a non-square number of points (6×11, 2×3 … ⇒ Err)
-  let ns = if ctx.thorough { 96 } else { 24 };
+  let ns = if ctx.thorough { 160 } else { 40 };
   let sides: &[usize] = if ctx.thorough { &[1, 2, 3, 5, 8, 16, 24] } else { &[1, 2, 4, 6, 8] };
   let rect: &[(usize, usize)] = &[(4, 9), (9, 4), (2, 8), (8, 2), (3, 12), (1, 4), (4, 1), (1, 9), (2, 18), (4, 16), (5, 20)];
   let bad: &[(usize, usize)] = &[(6, 11), (2, 3), (3, 2), (1, 2), (5, 7), (4, 8), (7, 6), (1, 3)];
@@ -93,13 +93,13 @@ pub fn run(ctx: &mut Ctx) {
   // finding D40 of C12) after ≈ 2 s per integral, i.e. minutes per spectrum object (measured: 109 s for one point)
   ctx.count("setup/integrator/GaussKonrod-skipped(D40)");
   for c in 0..ns {
-    let st = gen_setup(&mut ctx.rng, None);
-    let (nx, ny, shape) = match c % 3 {
-      0 => {
+    let st = if c % 4 == 0 { gen_setup(&mut ctx.rng, None) } else { gen_setup_x(&mut ctx.rng, None) };
+    let (nx, ny, shape) = match c % 4 {
+      0 | 1 => {
         let n = *ctx.rng.pick(sides);
         (n, n, "square")
       }
-      1 => {
+      2 => {
         let (a, b) = *ctx.rng.pick(rect);
         (a, b, "rect-square-length")
       }
@@ -116,7 +116,17 @@ pub fn run(ctx: &mut Ctx) {
     let sp = st.spdc.joint_spectrum(integ);
     let o = st.spdc.optimum_range(nx.max(2));
     let os = o.steps();
-    let range = spdcalc::jsa::FrequencySpace::new((os.0 .0, os.0 .1, nx), (os.1 .0, os.1 .1, ny));
+    // axes: the setup's optimum range, or (one case in two) IDENTICAL signal and idler axes spanning both
+    let identical_axes = ctx.rng.coin();
+    let range = if identical_axes {
+      let lo = if os.0 .0 < os.1 .0 { os.0 .0 } else { os.1 .0 };
+      let hi = if os.0 .1 > os.1 .1 { os.0 .1 } else { os.1 .1 };
+      spdcalc::jsa::FrequencySpace::new((lo, hi, nx), (lo, hi, ny))
+    } else {
+      spdcalc::jsa::FrequencySpace::new((os.0 .0, os.0 .1, nx), (os.1 .0, os.1 .1, ny))
+    };
+    ctx.count(if identical_axes { "setup/axes/identical" } else { "setup/axes/optimum" });
+    ctx.count(&format!("setup/family/{}", st.name.split(',').next().unwrap_or("?")));
     let amps = sp.jsa_range(range);
     let r = guard(|| sp.schmidt_number(range));
     // K: the wrapper against the model fed with the implementation's own samples
@@ -132,7 +142,7 @@ pub fn run(ctx: &mut Ctx) {
       "C11.wrapper",
       ok,
       &format!("schmidt/setup-eq-array/{}", shape),
-      &format!("setup={} integrator={} nx={} ny={} samples={} wrapper={} on_samples={}", st.name, iname, nx, ny, amps.len(), out_txt(&r), out_txt(&direct)),
+      &format!("setup={} integrator={} axes={} nx={} ny={} samples={} wrapper={} on_samples={}", st.name, iname, if identical_axes { "identical" } else { "optimum" }, nx, ny, amps.len(), out_txt(&r), out_txt(&direct)),
     );
     let d = ((nx * ny) as f64).sqrt().round() as usize;
     if d * d != nx * ny {
@@ -190,6 +200,49 @@ fn case(ctx: &mut Ctx, n: usize, kind: usize) {
       let w: Vec<f64> = (0..n).map(|_| r.unit() + 0.1).collect();
       let eps = r.log_range(1e-6, 1e-1);
       ("near-separable", (0..n * n).map(|k| C::from_polar(u[k / n] * w[k % n] + eps * r.unit(), r.range(-3.2, 3.2))).collect())
+    }
+    6 | 7 => {
+      // structural zeros: the first a and the last b rows (kind 6) / columns (kind 7) are exactly zero,
+      // everything else populated (one side only when a or b is 0)
+      let a = r.below(n / 2 + 1);
+      let b = if a == 0 { r.between(1.min(n / 2), (n / 2).max(1).min(n.saturating_sub(1))) } else { r.below(n / 2 + 1) };
+      let rows = kind == 6;
+      (
+        if rows { "zero-border-rows" } else { "zero-border-cols" },
+        (0..n * n)
+          .map(|k| {
+            let q = if rows { k / n } else { k % n };
+            if q < a || q + b >= n { C::new(0.0, 0.0) } else { rand_c(r) }
+          })
+          .collect(),
+      )
+    }
+    8 => {
+      // block-sparse: one populated rectangular block anywhere, zero elsewhere
+      let (r0, c0) = (r.below(n), r.below(n));
+      let (r1, c1) = (r.between(r0, n - 1), r.between(c0, n - 1));
+      (
+        "block-sparse",
+        (0..n * n).map(|k| if k / n >= r0 && k / n <= r1 && k % n >= c0 && k % n <= c1 { rand_c(r) } else { C::new(0.0, 0.0) }).collect(),
+      )
+    }
+    9 => {
+      // shifted / permuted diagonal of equal magnitudes with some entries removed
+      let mut p: Vec<usize> = (0..n).collect();
+      if r.coin() {
+        let sh = r.below(n);
+        for (i, x) in p.iter_mut().enumerate() {
+          *x = (i + sh) % n;
+        }
+      } else {
+        for i in (1..n).rev() {
+          let j = r.below(i + 1);
+          p.swap(i, j);
+        }
+      }
+      let m = r.log_range(1e-3, 1e3);
+      let keep: Vec<bool> = (0..n).map(|i| if i == 0 || i + 1 == n { r.below(3) == 0 } else { r.below(4) != 0 }).collect();
+      ("diagonal-with-holes", (0..n * n).map(|k| if p[k / n] == k % n && keep[k / n] { C::from_polar(m, 1.0) } else { C::new(0.0, 0.0) }).collect())
     }
     _ => {
       // banded (correlated) Gaussian ridge
